@@ -294,4 +294,159 @@ Proof.
       * split; [|split; reflexivity]. intros r Hr. rewrite rget_set_flags, rget_hset. unfold s2. rewrite rget_rset_other by congruence. reflexivity.
       * apply frame_ok_set_flags, frame_ok_hset. unfold s2. apply frame_ok_rset; [discriminate|]. now apply frame_ok_set_flags.
 Qed.
+
+(* ---------- erase_block ---------- *)
+Definition same_but_temp_free (s s' : xstate) : Prop :=
+  (forall r, r <> TEMP -> r <> FREE -> rget s' r = rget s r) /\ stack s' = stack s /\ out s' = out s.
+
+Theorem x86_erase_block_ok pos t lc s sp p f F :
+  let cs := fst (x_erase_block t lc) in
+  code_at im pos cs -> labels_at im pos cs ->
+  frame_ok s sp -> loc_ok t -> lget s sp t = Some p -> rget s FREE = Some f ->
+  (p = 0 \/ is_blk p) ->
+  (p <> 0 -> hword s p <> 0 -> wrap (hword s p + -1) = hword s p - 1) ->
+  exists s', steps im pos s (pnth pos (List.length cs)) s' /\
+     st_eqB (abs_heap F s') (Heap.erase p (abs_heap F s)) /\
+     same_but_temp_free s s' /\ frame_ok s' sp.
+Proof.
+  intros cs HC HL FR T P Hf Hp Hw. unfold cs in *. clear cs.
+  assert (HeapReg : forall s', same_but_temp_free s s' -> reg_or0 s' HEAP = reg_or0 s HEAP).
+  { intros s' (H & _). unfold reg_or0. now rewrite H by discriminate. }
+  assert (Ff : reg_or0 s FREE = f) by (unfold reg_or0; now rewrite Hf).
+  destruct t as [r|q];
+    cbn [x_erase_block erase_valid_object if_zero_then_else skip_if_zero compare_immediate fst snd app List.length] in *; cbn [lget loc_ok] in *.
+  - (* register *)
+    destruct (Z.eq_dec p 0) as [->|Hp0].
+    + exists (set_flags s (Some (0, 0))). split; [|split; [|split]].
+      * nxt HC 0%nat. { apply step_CMPI0. exact P. }
+        jmp HC 1%nat. { rewrite (step_JEL im _ _ 0 0) by reflexivity. cbn [Z.eqb]. unfold goto_label. rewrite (HL 10%nat _ eq_refl). reflexivity. }
+        nxt HC 10%nat. { reflexivity. }
+        apply steps_refl.
+      * unfold Heap.erase. cbn [Z.eqb]. repeat split; reflexivity.
+      * repeat split; reflexivity.
+      * now apply frame_ok_set_flags.
+    + destruct Hp as [|Hb]; [contradiction|]. pose proof (blk_heap_addr p Hb) as Ha.
+      set (s1 := set_flags s (Some (p, 0))).
+      set (s2 := set_flags s1 (Some (hword s p, 0))).
+      destruct (Z.eq_dec (hword s p) 0) as [Hh|Hh].
+      * (* last reference: onto the deferred list *)
+        set (s3 := hset s2 p f).
+        exists (rset s3 FREE (Some p)).
+        assert (SB : same_but_temp_free s (rset s3 FREE (Some p))).
+        { split; [|split; reflexivity]. intros r' _ Hr. rewrite rget_rset_other by congruence. reflexivity. }
+        split; [|split; [|split]].
+        -- nxt HC 0%nat. { apply step_CMPI0. exact P. }
+           nxt HC 1%nat. { rewrite (step_JEL im _ _ p 0) by reflexivity. destruct (Z.eqb_spec p 0); [contradiction|reflexivity]. }
+           nxt HC 2%nat. { change REFERENCE_COUNT_OFFSET with 0. eapply step_CMPIM0_heap; [exact P|exact Ha]. }
+           jmp HC 3%nat. { rewrite (step_JEL im _ _ (hword s p) 0) by reflexivity. rewrite Hh. cbn [Z.eqb]. unfold goto_label. rewrite (HL 6%nat _ eq_refl). reflexivity. }
+           nxt HC 6%nat. { reflexivity. }
+           nxt HC 7%nat. { change NEXT_ELEMENT_OFFSET with 0. eapply step_MOVS_heap; [exact P|exact Ha|exact Hf]. }
+           nxt HC 8%nat. { cbn [step]. reflexivity. }
+           nxt HC 9%nat. { reflexivity. }
+           nxt HC 10%nat. { reflexivity. }
+           match goal with |- steps _ _ (rset _ FREE ?v) _ _ => change v with (rget s r) end. rewrite P. apply steps_refl.
+        -- unfold Heap.erase. destruct (Z.eqb_spec p 0); [contradiction|].
+           change (Heap.hdr (Heap.m (abs_heap F s) p)) with (hword s p). rewrite Hh. cbn [Z.eqb].
+           split; [apply (HeapReg _ SB)|split; [|split; [reflexivity|]]].
+           ++ cbn [abs_heap Heap.free]. unfold reg_or0. now rewrite rget_rset_same.
+           ++ intros x Hx. cbn [abs_heap Heap.m Heap.free]. rewrite Ff.
+              change (abs_mem (rset s3 FREE (Some p)) x) with (abs_mem (hset s p f) x). now apply abs_mem_hset.
+        -- exact SB.
+        -- apply frame_ok_rset; [discriminate|]. apply frame_ok_hset, frame_ok_set_flags, frame_ok_set_flags, FR.
+      * (* other references remain: decrement *)
+        exists (set_flags (hset s2 p (wrap (hword s p + -1))) None).
+        assert (SB : same_but_temp_free s (set_flags (hset s2 p (wrap (hword s p + -1))) None)).
+        { repeat split; reflexivity. }
+        split; [|split; [|split]].
+        -- nxt HC 0%nat. { apply step_CMPI0. exact P. }
+           nxt HC 1%nat. { rewrite (step_JEL im _ _ p 0) by reflexivity. destruct (Z.eqb_spec p 0); [contradiction|reflexivity]. }
+           nxt HC 2%nat. { change REFERENCE_COUNT_OFFSET with 0. eapply step_CMPIM0_heap; [exact P|exact Ha]. }
+           nxt HC 3%nat. { rewrite (step_JEL im _ _ (hword s p) 0) by reflexivity. destruct (Z.eqb_spec (hword s p) 0); [contradiction|reflexivity]. }
+           nxt HC 4%nat. { change REFERENCE_COUNT_OFFSET with 0. eapply step_ADDIM_heap; [exact P|exact Ha|reflexivity]. }
+           jmp HC 5%nat. { cbn [step]. unfold goto_label. rewrite (HL 9%nat _ eq_refl). reflexivity. }
+           nxt HC 9%nat. { reflexivity. }
+           nxt HC 10%nat. { reflexivity. }
+           apply steps_refl.
+        -- unfold Heap.erase. destruct (Z.eqb_spec p 0); [contradiction|].
+           change (Heap.hdr (Heap.m (abs_heap F s) p)) with (hword s p).
+           destruct (Z.eqb_spec (hword s p) 0); [contradiction|].
+           split; [reflexivity|split; [reflexivity|split; [reflexivity|]]].
+           intros x Hx. cbn [abs_heap Heap.m]. change (hword s2 p) with (hword s p). rewrite Hw by auto.
+           change (abs_mem (set_flags (hset s2 p (hword s p - 1)) None) x) with (abs_mem (hset s p (hword s p - 1)) x).
+           now apply abs_mem_hset.
+        -- exact SB.
+        -- apply frame_ok_set_flags, frame_ok_hset, frame_ok_set_flags, frame_ok_set_flags, FR.
+  - (* spill slot: the pointer is first loaded into the scratch register *)
+    set (s0 := rset s TEMP (Some p)).
+    assert (F0 : frame_ok s0 sp) by (apply frame_ok_rset; [discriminate|exact FR]).
+    assert (P0 : rget s0 TEMP = Some p) by apply rget_rset_same.
+    assert (Hf0 : rget s0 FREE = Some f) by (unfold s0; rewrite rget_rset_other by discriminate; exact Hf).
+    destruct (Z.eq_dec p 0) as [->|Hp0].
+    + exists (set_flags s0 (Some (0, 0))). split; [|split; [|split]].
+      * nxt HC 0%nat. { rewrite (step_MOVL_slot im s sp FR) by exact T. rewrite P. reflexivity. }
+        nxt HC 1%nat. { apply step_CMPI0. exact P0. }
+        jmp HC 2%nat. { rewrite (step_JEL im _ _ 0 0) by reflexivity. cbn [Z.eqb]. unfold goto_label. rewrite (HL 11%nat _ eq_refl). reflexivity. }
+        nxt HC 11%nat. { reflexivity. }
+        apply steps_refl.
+      * unfold Heap.erase. cbn [Z.eqb].
+        split; [|split; [|split; [reflexivity|intros; reflexivity]]]; cbn [abs_heap Heap.heap Heap.free]; unfold reg_or0;
+          rewrite rget_set_flags; unfold s0; now rewrite rget_rset_other by discriminate.
+      * split; [|split; reflexivity]. intros r' Hr _. rewrite rget_set_flags. unfold s0. now rewrite rget_rset_other by congruence.
+      * now apply frame_ok_set_flags.
+    + destruct Hp as [|Hb]; [contradiction|]. pose proof (blk_heap_addr p Hb) as Ha.
+      set (s1 := set_flags s0 (Some (p, 0))).
+      set (s2 := set_flags s1 (Some (hword s p, 0))).
+      destruct (Z.eq_dec (hword s p) 0) as [Hh|Hh].
+      * set (s3 := hset s2 p f).
+        exists (rset s3 FREE (Some p)).
+        assert (SB : same_but_temp_free s (rset s3 FREE (Some p))).
+        { split; [|split; reflexivity]. intros r' Hr1 Hr. rewrite rget_rset_other by congruence.
+          unfold s3. rewrite rget_hset. unfold s2, s1. rewrite !rget_set_flags. unfold s0. now rewrite rget_rset_other by congruence. }
+        split; [|split; [|split]].
+        -- nxt HC 0%nat. { rewrite (step_MOVL_slot im s sp FR) by exact T. rewrite P. reflexivity. }
+           nxt HC 1%nat. { apply step_CMPI0. exact P0. }
+           nxt HC 2%nat. { rewrite (step_JEL im _ _ p 0) by reflexivity. destruct (Z.eqb_spec p 0); [contradiction|reflexivity]. }
+           nxt HC 3%nat. { change REFERENCE_COUNT_OFFSET with 0. eapply step_CMPIM0_heap; [exact P0|exact Ha]. }
+           jmp HC 4%nat. { rewrite (step_JEL im _ _ (hword s p) 0) by reflexivity. rewrite Hh. cbn [Z.eqb]. unfold goto_label. rewrite (HL 7%nat _ eq_refl). reflexivity. }
+           nxt HC 7%nat. { reflexivity. }
+           nxt HC 8%nat. { change NEXT_ELEMENT_OFFSET with 0. eapply step_MOVS_heap; [exact P0|exact Ha|exact Hf0]. }
+           nxt HC 9%nat. { cbn [step]. reflexivity. }
+           nxt HC 10%nat. { reflexivity. }
+           nxt HC 11%nat. { reflexivity. }
+           match goal with |- steps _ _ (rset _ FREE ?v) _ _ => change v with (rget s0 TEMP) end. rewrite P0. apply steps_refl.
+        -- unfold Heap.erase. destruct (Z.eqb_spec p 0); [contradiction|].
+           change (Heap.hdr (Heap.m (abs_heap F s) p)) with (hword s p). rewrite Hh. cbn [Z.eqb].
+           split; [apply (HeapReg _ SB)|split; [|split; [reflexivity|]]].
+           ++ cbn [abs_heap Heap.free]. unfold reg_or0. now rewrite rget_rset_same.
+           ++ intros x Hx. cbn [abs_heap Heap.m Heap.free]. rewrite Ff.
+              change (abs_mem (rset s3 FREE (Some p)) x) with (abs_mem (hset s p f) x). now apply abs_mem_hset.
+        -- exact SB.
+        -- apply frame_ok_rset; [discriminate|]. apply frame_ok_hset, frame_ok_set_flags, frame_ok_set_flags, F0.
+      * exists (set_flags (hset s2 p (wrap (hword s p + -1))) None).
+        assert (SB : same_but_temp_free s (set_flags (hset s2 p (wrap (hword s p + -1))) None)).
+        { split; [|split; reflexivity]. intros r' Hr1 Hr. rewrite rget_set_flags, rget_hset. unfold s2, s1. rewrite !rget_set_flags.
+          unfold s0. now rewrite rget_rset_other by congruence. }
+        split; [|split; [|split]].
+        -- nxt HC 0%nat. { rewrite (step_MOVL_slot im s sp FR) by exact T. rewrite P. reflexivity. }
+           nxt HC 1%nat. { apply step_CMPI0. exact P0. }
+           nxt HC 2%nat. { rewrite (step_JEL im _ _ p 0) by reflexivity. destruct (Z.eqb_spec p 0); [contradiction|reflexivity]. }
+           nxt HC 3%nat. { change REFERENCE_COUNT_OFFSET with 0. eapply step_CMPIM0_heap; [exact P0|exact Ha]. }
+           nxt HC 4%nat. { rewrite (step_JEL im _ _ (hword s p) 0) by reflexivity. destruct (Z.eqb_spec (hword s p) 0); [contradiction|reflexivity]. }
+           nxt HC 5%nat. { change REFERENCE_COUNT_OFFSET with 0. eapply step_ADDIM_heap; [exact P0|exact Ha|reflexivity]. }
+           jmp HC 6%nat. { cbn [step]. unfold goto_label. rewrite (HL 10%nat _ eq_refl). reflexivity. }
+           nxt HC 10%nat. { reflexivity. }
+           nxt HC 11%nat. { reflexivity. }
+           apply steps_refl.
+        -- unfold Heap.erase. destruct (Z.eqb_spec p 0); [contradiction|].
+           change (Heap.hdr (Heap.m (abs_heap F s) p)) with (hword s p).
+           destruct (Z.eqb_spec (hword s p) 0); [contradiction|].
+           split; [apply (HeapReg _ SB)|split; [|split; [reflexivity|]]].
+           ++ cbn [abs_heap Heap.free]. unfold reg_or0. rewrite rget_set_flags, rget_hset. unfold s2, s1. rewrite !rget_set_flags.
+              unfold s0. now rewrite rget_rset_other by discriminate.
+           ++ intros x Hx. cbn [abs_heap Heap.m]. change (hword s2 p) with (hword s p). rewrite Hw by auto.
+              change (abs_mem (set_flags (hset s2 p (hword s p - 1)) None) x) with (abs_mem (hset s p (hword s p - 1)) x).
+              now apply abs_mem_hset.
+        -- exact SB.
+        -- apply frame_ok_set_flags, frame_ok_hset, frame_ok_set_flags, frame_ok_set_flags, F0.
+Qed.
 End Refine.
